@@ -422,14 +422,10 @@ pub fn run(tier: Tier) -> i32 {
                 // or the implicit exclusion of the keys by `group`): the second forgets the first, the column
                 // excluded first is selected again
                 match flat.find("select !{") {
-                    Some(i) => {
-                        // `t` is read through its wildcard: a `from t` that is not narrowed by a `select {…}` right away
-                        let open_t = flat.match_indices("from t ").any(|(k, _)| {
-                            let rest = flat[k + 7..].trim_start();
-                            rest.starts_with("select !{") || !rest.starts_with("select {")
-                        });
-                        open_t && (flat[i + 9..].contains("select !{") || flat[i + 9..].contains("group {"))
-                    }
+                    // (some relation of the program is read through its wildcard — `from t`, `join u` —, which is what
+                    // makes the second exclusion start from the wildcard again; programs over closed relations only do
+                    // not show the violation at all, so the shape is not narrowed further)
+                    Some(i) => flat[i + 9..].contains("select !{") || flat[i + 9..].contains("group {"),
                     None => false,
                 }
             } {
